@@ -1030,10 +1030,12 @@ def _project_final(r, rank, hist_pops, hist_ids, betas, margin):
     out["init_size"] = int(len(hist_pops[0]["x"])) if hist_pops else -1
     # floor / schedule flags
     floor_ok = []
+    rs_ = r.get("restore_state")
+    start_it = int(rs_.get("iteration") or 0) if rs_ is not None else 0    # steps taken by an earlier call obeyed that call's options
     for t in range(T):
         bp = betas[t - 1] if t > 0 else 0.0
         b = betas[t]
-        if c["min_step"] is None:
+        if c["min_step"] is None or t < start_it:
             floor_ok.append("yes")
         else:
             step = b - bp
